@@ -49,6 +49,11 @@ pub fn zoned_diff(z: &Zone, t1: i128, t2: i128, largest: U) -> Result<Internal, 
     }
     let start = wall_dt(z, t1);
     let end = wall_dt(z, t2);
+    // same wall-clock date: no whole day lies between the two instants whatever their wall-clock order (inside a
+    // repeated hour it can be the reverse of their exact order); the result is the exact elapsed time
+    if start.day == end.day {
+        return Ok(Internal { y: 0, mo: 0, w: 0, d: 0, t: t2 - t1 });
+    }
     let sign: i128 = if t2 - t1 < 0 { -1 } else { 1 };
     let max_corr = if sign == 1 { 2 } else { 1 };
     let mut corr: i128 = if (end.ns - start.ns).signum() == -sign { 1 } else { 0 };
